@@ -25,19 +25,22 @@ type Inner struct {
 }
 
 type Doc struct {
-	Str   string            `json:"str" xml:"str" yaml:"str"`
-	Int   int64             `json:"int" xml:"int" yaml:"int"`
-	Small int8              `json:"small" xml:"small" yaml:"small"`
-	U     uint32            `json:"u" xml:"u" yaml:"u"`
-	F64   float64           `json:"f64" xml:"f64" yaml:"f64"`
-	F32   float32           `json:"f32" xml:"f32" yaml:"f32"`
-	Flag  bool              `json:"flag" xml:"flag" yaml:"flag"`
-	List  []string          `json:"list" xml:"list" yaml:"list"`
-	Nums  []int             `json:"nums" xml:"nums" yaml:"nums"`
-	PtrS  *string           `json:"ptrs,omitempty" xml:"ptrs,omitempty" yaml:"ptrs,omitempty"`
-	In    Inner             `json:"in" xml:"in" yaml:"in"`
-	Ins   []Inner           `json:"ins" xml:"ins" yaml:"ins"`
-	M     map[string]string `json:"m,omitempty" xml:"-" yaml:"m,omitempty"`
+	Str   string  `json:"str" xml:"str" yaml:"str"`
+	Int   int64   `json:"int" xml:"int" yaml:"int"`
+	Small int8    `json:"small" xml:"small" yaml:"small"`
+	U     uint32  `json:"u" xml:"u" yaml:"u"`
+	F64   float64 `json:"f64" xml:"f64" yaml:"f64"`
+	F32   float32 `json:"f32" xml:"f32" yaml:"f32"`
+	Flag  bool    `json:"flag" xml:"flag" yaml:"flag"`
+	// element names that HTML parsers close by themselves (link, img): for an XML codec they are names like any other
+	Link string            `json:"link" xml:"link" yaml:"link"`
+	Img  []string          `json:"img" xml:"img" yaml:"img"`
+	List []string          `json:"list" xml:"list" yaml:"list"`
+	Nums []int             `json:"nums" xml:"nums" yaml:"nums"`
+	PtrS *string           `json:"ptrs,omitempty" xml:"ptrs,omitempty" yaml:"ptrs,omitempty"`
+	In   Inner             `json:"in" xml:"in" yaml:"in"`
+	Ins  []Inner           `json:"ins" xml:"ins" yaml:"ins"`
+	M    map[string]string `json:"m,omitempty" xml:"-" yaml:"m,omitempty"`
 }
 
 // StructCase: produce a value with a structured codec, then consume the output again.
@@ -50,7 +53,8 @@ type StructCase struct {
 	BadDest string `json:"bad_dest,omitempty"` // nil | typednil | value | nilmap
 	Chunks  []int  `json:"chunks,omitempty"`
 	EOFData bool   `json:"eof_with_data,omitempty"`
-	FailAt  int    `json:"fail_at"` // read/write fault offset as a per-mille of the encoded length (-1: none)
+	FailAt  int    `json:"fail_at"`            // read/write fault offset as a per-mille of the encoded length (-1: none)
+	FailErr string `json:"fail_err,omitempty"` // readfault: the error value of the failing reader (see Script.FailErr)
 	// Reader selects what the consumer reads from in the fault-free modes: "" (the scripted reader) or one of the
 	// standard library's concrete reader types (buffer = *bytes.Buffer, bytesreader = *bytes.Reader, stringsreader).
 	Reader string `json:"reader,omitempty"`
@@ -74,6 +78,9 @@ func normDoc(d Doc) Doc {
 	}
 	if len(d.Nums) == 0 {
 		d.Nums = nil
+	}
+	if len(d.Img) == 0 {
+		d.Img = nil
 	}
 	if len(d.Ins) == 0 {
 		d.Ins = nil
@@ -179,6 +186,7 @@ func CheckStruct(c StructCase) *kit.Violation {
 			at = 0
 		}
 		script.FailAt = at
+		script.FailErr = c.FailErr
 	}
 	_, stream := script.open()
 	if c.Mode != "readfault" {
@@ -272,6 +280,12 @@ func GenStruct(t *rapid.T) StructCase {
 	d := Doc{Str: genStr(t, "str"), Int: genInt64(t, "int"), Small: int8(rapid.SampledFrom([]int{0, 127, -128, 5}).Draw(t, "small")),
 		U: rapid.SampledFrom([]uint32{0, 1, 1<<32 - 1}).Draw(t, "u"), F64: genFloat(t, "f64"),
 		F32: rapid.SampledFrom([]float32{0, 1.5, 3.4028235e38, 1e-45, 0.1}).Draw(t, "f32"), Flag: rapid.Bool().Draw(t, "flag"), In: genInner(t)}
+	if rapid.Bool().Draw(t, "haslink") {
+		d.Link = genStr(t, "link")
+	}
+	for i, n := 0, rapid.IntRange(0, 2).Draw(t, "nimg"); i < n; i++ {
+		d.Img = append(d.Img, genStr(t, "img"))
+	}
 	for i, n := 0, rapid.IntRange(0, 3).Draw(t, "nlist"); i < n; i++ {
 		d.List = append(d.List, genStr(t, "li"))
 	}
@@ -316,12 +330,21 @@ func GenStruct(t *rapid.T) StructCase {
 		c.BadDest = rapid.SampledFrom([]string{"nil", "typednil", "value", "nilmap", "string"}).Draw(t, "baddest")
 	case "readfault", "writefault":
 		c.FailAt = rapid.SampledFrom([]int{0, 1, 100, 500, 900, 990, 999, rapid.IntRange(0, 999).Draw(t, "anyfail")}).Draw(t, "failat")
+		if c.Mode == "readfault" {
+			c.FailErr = rapid.SampledFrom([]string{"", "", "unexpected-eof", "wrapped-eof", "closed-pipe"}).Draw(t, "failerr")
+		}
 	}
 	return c
 }
 
 func ClassifyStruct(c StructCase) (bool, []string) {
 	labels := []string{"codec " + c.Codec, "mode " + c.Mode}
+	if c.FailErr != "" {
+		labels = append(labels, "reader fails with "+c.FailErr)
+	}
+	if c.Doc.Link != "" || len(c.Doc.Img) > 0 {
+		labels = append(labels, "fields named like HTML void elements (link, img)")
+	}
 	nt := c.Mode != "doc"
 	for _, ch := range c.Chunks {
 		if ch == 0 {
